@@ -31,7 +31,7 @@ ASSUMPTIONS = [
     "a value set by a command callback in the very tick the Unpause completes is accepted (execution order inside a tick is "
     "not fixed by the statement)",
 ]
-TIERS = {"quick": {"examples": 1500, "budget_s": 100}, "thorough": {"examples": 80000, "budget_s": 1500}}
+TIERS = {"quick": {"examples": 6400, "budget_s": 100}, "thorough": {"examples": 80000, "budget_s": 1500}}
 
 CFG = G.GenCfg(kinds={"set": 6, "slow": 2, "ova": 1, "wait": 3, "pause": 3, "hold": 1, "block": 1, "mark": 2},
                max_depth=2, max_top=8, max_children=3, thresholds=False, base_first="s", wait_max=1.0,
